@@ -59,14 +59,60 @@ func c08Build() {
 			d.AddText(e, fmt.Sprint(len(nm)))
 			d.AddAttr(e, "", nm, "v")
 		}
+		// the same reserved words as local names inside namespaces (prefix:local with both halves reserved)
+		for k, nm := range []string{"child", "text", "node", "self", "parent", "comment", "descendant"} {
+			uri := []string{canonNS["p"], canonNS["q"], canonNS["r"]}[k%3]
+			e := d.AddElem(top, uri, nm)
+			d.AddText(e, nm)
+			d.AddAttr(e, []string{canonNS["q"], canonNS["r"], canonNS["p"]}[k%3], nm, "w")
+		}
 		d.Finish()
 		w, err := newWorld(d)
 		if err == nil {
+			w.env.NS = c08NS
+			w.opts = nsOpts(c08NS)
 			w.env.Vars = map[refeval.Name]refeval.Value{{Local: "n"}: 2.0, {Local: "s"}: "a", {Local: "and"}: 3.0, {Space: canonNS["p"], Local: "v"}: "pv", {Local: "x-1"}: 5.0, {Local: "_v"}: 7.0}
 			out = append(out, w)
 		}
 	}
 	c08Battery = out
+}
+
+// c08NS: the canonical bindings plus prefixes that spell axes and node types
+var c08NS = map[string]string{"p": canonNS["p"], "q": canonNS["q"], "r": canonNS["r"], "xml": adoc.XMLNS,
+	"self": canonNS["p"], "child": canonNS["q"], "node": canonNS["r"], "text": canonNS["p"], "ancestor": canonNS["q"], "comment": canonNS["r"]}
+
+// c08Vocab lists the battery document's names, choosing for every namespaced name one of
+// the prefixes bound to its URI (reserved-word prefixes included).
+func c08Vocab(g *rng.R, d *adoc.Doc) (elems, attrs []xast.QN) {
+	rev := map[string][]string{}
+	for _, p := range []string{"ancestor", "child", "comment", "node", "p", "q", "r", "self", "text"} {
+		rev[c08NS[p]] = append(rev[c08NS[p]], p)
+	}
+	seen := map[xast.QN]bool{}
+	for _, n := range d.All {
+		if n.Kind != adoc.Elem && n.Kind != adoc.Attr {
+			continue
+		}
+		q := xast.QN{Local: n.Local}
+		if n.Space != "" {
+			ps := rev[n.Space]
+			if len(ps) == 0 {
+				continue
+			}
+			q.Prefix = rng.Pick(g, ps)
+		}
+		if seen[q] {
+			continue
+		}
+		seen[q] = true
+		if n.Kind == adoc.Elem {
+			elems = append(elems, q)
+		} else {
+			attrs = append(attrs, q)
+		}
+	}
+	return
 }
 
 var c08Binds = []xsel.ContextApply{xsel.WithVariable("n", xsel.Number(2)), xsel.WithVariable("s", xsel.String("a")), xsel.WithVariable("and", xsel.Number(3)),
@@ -386,7 +432,7 @@ func c08Judge(r *evid.Run, idx int, class, rendering, s string, genAST xast.Expr
 		if genAST != nil {
 			use, strict = genAST, true
 		}
-		if genAST == nil && hasFnStepWithArgs(ast) {
+		if genAST == nil && (hasFnStepWithArgs(ast) || hasNamespaceAxisNameTest(ast)) {
 			sig("accept-not-judged") // function-call steps with arguments are outside the statement
 			return
 		}
@@ -429,6 +475,21 @@ func c08Judge(r *evid.Run, idx int, class, rendering, s string, genAST xast.Expr
 			r.Sample(class+"/"+rendering, 1, map[string]any{"case": idx, "expr": s, "value_on_doc0": bridge.Show(mv[0])})
 		}
 	}
+}
+
+// name tests on the namespace axis follow the library's own URI rule (outside the statement)
+func hasNamespaceAxisNameTest(e xast.Expr) bool {
+	found := false
+	xast.Walk(e, func(x xast.Expr) {
+		if p, ok := x.(xast.Path); ok {
+			for _, s := range p.Steps {
+				if s.Fn == nil && s.Axis == "namespace" && (s.Test.Kind == xast.TName || s.Test.Kind == xast.TNSAny || s.Test.Kind == xast.TLocalAny) {
+					found = true
+				}
+			}
+		}
+	})
+	return found
 }
 
 func hasFnStepWithArgs(e xast.Expr) bool {
@@ -486,8 +547,9 @@ func c08Case(r *evid.Run, tier string, idx int, g *rng.R) {
 		return
 	}
 	d := ws[idx%len(ws)].d
-	elems, attrs, targets := vocab(d)
-	cfg := &xast.Cfg{Elems: elems, Attrs: attrs, Prefixes: []string{"p", "q", "r"}, Targets: targets, Axes: xast.Axes, MaxSteps: 3, MaxDepth: 3, PredPct: 35, Abbrev: 50,
+	_, _, targets := vocab(d)
+	elems, attrs := c08Vocab(g, d)
+	cfg := &xast.Cfg{Elems: elems, Attrs: attrs, Prefixes: []string{"p", "q", "r", "self", "node", "child"}, Targets: targets, Axes: xast.Axes, MaxSteps: 3, MaxDepth: 3, PredPct: 35, Abbrev: 50,
 		Unions: true, Filters: true, AbsInPred: true, FnSteps: true, StrLits: []string{"", "a", "1", " 2 ", "é", "x y", "it's", "q\"q"}, NumLits: []float64{0, 1, 2, 0.5, 1.5, 100, 12.25},
 		Vars: []xast.VarSpec{{Local: "n", T: xast.TNum}, {Local: "s", T: xast.TStr}, {Local: "and", T: xast.TNum}, {Prefix: "p", Local: "v", T: xast.TStr}, {Local: "x-1", T: xast.TNum}}}
 	funcs := map[string]bool{}
